@@ -109,6 +109,16 @@ func registerIntrinsics(P *Program) {
 		}
 		return Str{B: bs}
 	}
+	in[sa+"OneOf"] = func(fr *frame, args []Value) Value {
+		m := fr.m
+		b := args[0].(*Term)
+		set := m.concStr(args[1], "OneOf set")
+		r := m.tb.False()
+		for i := 0; i < len(set); i++ {
+			r = m.tb.Or(r, m.tb.Eq(b, m.tb.Const(8, uint64(set[i]))))
+		}
+		return r
+	}
 	in[sa+"Param"] = func(fr *frame, args []Value) Value {
 		m := fr.m
 		name := m.concStr(args[0], "param name")
